@@ -15,3 +15,38 @@ package ebpf
 //@ func MakeCircuitIDKey
 //@   modifies nothing
 //@   ensures forall i int :: 0 <= i && i < 32 ==> result[i] == ite(i < len(circuitID), circuitID[i], 0)
+
+// ---- loader.go: fast-path cache removals as seen by session teardown (C16) ----
+// The kernel maps are outside the Go heap; callers observe the calls through
+// ghost counters (sets clauses). Trusted: these methods touch no caller state.
+
+//@ func (l *Loader) RemoveSubscriber
+//@   trusted writes the subscriber_pools kernel map only
+//@   modifies nothing
+//@   sets relCacheMAC = relCacheMAC + 1
+
+//@ func (l *Loader) RemoveVLANSubscriber
+//@   trusted writes the vlan_subscriber_pools kernel map only
+//@   modifies nothing
+//@   sets relCacheVLAN = relCacheVLAN + 1
+
+//@ func (l *Loader) RemoveCircuitIDSubscriber
+//@   trusted writes the circuit_id_subscribers kernel map only
+//@   modifies nothing
+//@   sets relCacheCID = relCacheCID + 1
+
+//@ func (l *Loader) RemoveCircuitIDMapping
+//@   trusted writes the circuit-id to MAC kernel map only
+//@   modifies nothing
+//@   sets relCacheCIDMap = relCacheCIDMap + 1
+
+//@ func (l *Loader) HasVLANSupport
+//@   modifies nothing
+//@   ensures result == (l.vlanSubscriberPools != nil)
+
+//@ func (l *Loader) HasCircuitIDSubscriberSupport
+//@   modifies nothing
+//@   ensures result == (l.circuitIDSubscribers != nil)
+
+//@ func MACToUint64
+//@   modifies nothing
